@@ -20,6 +20,7 @@ From PowHsm Require Import Proofs.SrcEquivHeartbeatM.
 From PowHsm Require Import Proofs.SrcEquivParamsProtoM.
 From PowHsm Require Import Proofs.SrcEquivGateM.
 From PowHsm Require Import Proofs.SrcLiftGate.
+From PowHsm Require Import Proofs.SrcEquivGateV1M.
 Open Scope N_scope.
 
 (* for every request and every device script, sign answers only codes docs/protocol.md lists for sign plus the generic ones (closed check on the generated tables vs the generated doc lists) *)
@@ -431,5 +432,16 @@ Theorem C04_source_error_result_only_from_reconnect :
          srcm_HSM2ProtocolLedger____internal_handle_request fuel cm init self (of_json request) w =
          (XRaise (ErrorResult sw), w') -> reconnect_leaks kind w sw w'.
 Proof. exact (@src_error_result_only_from_reconnect). Qed.
+
+(* the whole legacy (version 1) request path of the source = the model's handle_request in mode V1 on every request and world *)
+Theorem C04_source_whole_request_path_v1_is_model :
+  forall (keccak : bytes -> bytes) (kind : dongle_kind) (init : pm pv)
+           (cm : string -> pv -> list pv -> pr pv) (self : pv) (request : json) 
+           (w : world),
+         init_ok kind init ->
+         path_oracle_ok_v1 cm ->
+         srcm_HSM1ProtocolLedger____internal_handle_request cm init self (of_json request) w =
+         mres of_json (handle_request keccak kind V1 request w).
+Proof. exact (@srcm_handle_request_v1_ok). Qed.
 
 Example C04_nonvacuous : True. Proof. exact I. Qed. (* concrete runs closed by vm_compute in Proofs/C04.v: blockchainState on Status 0x6B87 / silent device / bad opcode / 0x6F00 answers -905; sign on ERR_SIGN_INVALID_PATH answers -103; ex_error_result_escapes_* exhibit the reconnection-bring-up observation recorded in DESIGN.md *)
